@@ -81,6 +81,7 @@ class Rel:
         self.group = None
         self.recursive = False
         self.extra_decl = ""  # e.g. choice-domain
+        self.late_facts = []  # facts of an IDB relation, printed after its rules
 
 
 class Program:
@@ -139,6 +140,9 @@ class Feat:
         self.eqrel = False
         self.output_edb = False
         self.bitops = True
+        self.idb_facts = True        # IDB relations may also carry facts (written after their rules)
+        self.ineq_clusters = True    # several inequalities on the attributes of one atom
+        self.casts = True            # as(x, unsigned) / as(x, number) in comparisons
         self.__dict__.update(kw)
 
 
@@ -271,6 +275,13 @@ class Gen:
                     P.rules.append(self.gen_rule(r, lower, group if rec else [], want_rec, i))
                 if rec and not made_rec:
                     P.rules.append(self.gen_rule(r, lower, group, True, i))
+                if feat.idb_facts and len(r.types) > 0 and ch.bool(0.2):
+                    seen = set()
+                    for _ in range(ch.int(1, 3)):
+                        t = tuple(gen_value(ch, ty, feat) for ty in r.types)
+                        if t not in seen:
+                            seen.add(t)
+                            r.late_facts.append(t)
 
     def gen_atom_args(self, rel, env, allow_new=True, allow_wild=True, injected=None):
         """arguments for a positive atom over `rel`; env: type-name -> [Var] of bound vars; new vars are added"""
@@ -507,6 +518,30 @@ class Gen:
             for a in at.args:
                 if isinstance(a, Var) and a not in env_atoms.get(tname(a.ty), []):
                     env_atoms.setdefault(tname(a.ty), []).append(a)
+        if feat.ineq_clusters and feat.constraints and ch.bool(0.3):
+            # 2-3 inequalities on the attributes of ONE atom (index selection folds them into a range query)
+            for at in body:
+                nums = [a for a in at.args if isinstance(a, Var) and a.ty in (NUMBER, UNSIGNED, FLOAT)]
+                if len(nums) >= 2 or (nums and ch.bool(0.3)):
+                    for v in ch.sample(nums, min(len(nums), ch.int(2, 3))) if len(nums) >= 2 else nums * 2:
+                        op = ch.choice([">=", ">", "<", "<=", "!="])
+                        other = [w for w in env.get(v.ty, []) if w is not v]
+                        rhs = ch.choice(other) if other and ch.bool(0.3) else Const(gen_value(ch, v.ty, feat, small_only=not ch.bool(0.2)), v.ty)
+                        body.append(Cmp(op, v, rhs, v.ty) if ch.bool(0.75) else Cmp({">=": "<=", ">": "<", "<": ">", "<=": ">=", "!=": "!="}[op], rhs, v, v.ty))
+                    break
+        if feat.casts and feat.constraints and ch.bool(0.15):
+            # the same operands compared as signed and as unsigned (as() re-interprets the bits)
+            for src, dst in ((NUMBER, UNSIGNED), (UNSIGNED, NUMBER)):
+                vs = env.get(src, [])
+                if len(vs) >= 2:
+                    # (both operands are variables: a numeric constant inside as() is typed by the target type)
+                    a = ch.choice(vs)
+                    b = ch.choice([w for w in vs if w is not a])
+                    op = ch.choice(["<", "<=", ">", ">="])
+                    if ch.bool(0.6):
+                        body.append(Cmp(op, a, b, src))
+                    body.append(Cmp(op, Fn("as", [a], dst, src), Fn("as", [b], dst, src), dst))
+                    break
         nextra = ch.int(0, 3)
         complex_used = False
         agg_outer_used = set()
@@ -654,6 +689,8 @@ def fmt_term(t):
             return "(%s %s %s)" % (fmt_term(t.args[0]), FN_INFIX[t.op], fmt_term(t.args[1]))
         if t.op == "neg":
             return "(-(%s))" % fmt_term(t.args[0])
+        if t.op == "as":
+            return "as(%s, %s)" % (fmt_term(t.args[0]), tname(t.ty))
         return "%s(%s)" % (t.op, ", ".join(fmt_term(a) for a in t.args))
     if isinstance(t, Agg):
         b = ", ".join(fmt_lit(l) for l in t.body)
@@ -714,6 +751,10 @@ def to_souffle(P, with_io=True):
             out.append(".output %s" % n)
     for r in P.rules:
         out.append(fmt_rule(r))
+    for n in P.order:
+        rel = P.rels[n]
+        for tp in getattr(rel, "late_facts", ()):
+            out.append("%s(%s)." % (n, ", ".join(fmt_const(v, t) for v, t in zip(tp, rel.types))))
     out.extend(P.directives)
     return "\n".join(out) + "\n", facts
 
@@ -912,3 +953,16 @@ def alt_spelling(ch, v, ty):
             return None
         return base + "0" * ch.int(1, 3)
     return None
+
+
+import re as _re
+_IDENT = _re.compile(r'"[^"]*"|\b(?:e|r|q|Rec)\d+\b')
+
+
+def prefix_program(text, facts, pfx):
+    """rename every relation / record type (e<N>, r<N>, q<N>, Rec<N>) of a dlgen program by prepending pfx; string constants
+    are left alone. Used to bundle several independent programs into one file."""
+    def sub(m):
+        t = m.group(0)
+        return t if t.startswith('"') else pfx + t
+    return _IDENT.sub(sub, text), {pfx + k: v for k, v in facts.items()}
